@@ -15,6 +15,7 @@ fn main() {
         ("c12", "record") => yv::c12::record(&args),
         ("c11", "record") => yv::c11::record(&args),
         ("c09", "record") => yv::c09::record(&args),
+        ("c10", "record") => yv::c10::record(&args),
         _ => { eprintln!("unknown command {:?}", &a[..2]); std::process::exit(2); }
     }
 }
